@@ -13,6 +13,7 @@
 #include "tokenlist.h"
 
 #include <map>
+#include <vector>
 
 namespace {
     class QuietLogger : public ErrorLogger {
@@ -30,6 +31,7 @@ namespace {
     public:
         using Tokenizer::Tokenizer;
         using Tokenizer::createLinks;
+        using Tokenizer::validate;
     };
 
     std::string joined(const Fields& a, std::size_t from) {
@@ -72,6 +74,48 @@ VH_CMD(links) {
         out.push_back(l ? std::to_string(pos.at(l)) : "-");
     }
     return out;
+}
+
+// in: (token string, link index or "-") pairs: the links are set as given, then Tokenizer::validate
+// out: "ok" | "E" index id | "rej" why
+VH_CMD(validate) {
+    std::string code;
+    for (std::size_t i = 0; i + 1 < a.size(); i += 2) {
+        code += a[i];
+        code += ' ';
+    }
+    static const Settings settings;
+    QuietLogger logger;
+    OpenTokenizer tokenizer{TokenList{settings, Standards::Language::CPP}, logger};
+    tokenizer.list.appendFileIfNew("test.cpp");
+    if (!tokenizer.list.createTokensFromBuffer(code.data(), code.size()))
+        return {"rej", "createTokens"};
+    std::vector<Token*> toks;
+    for (Token* t = tokenizer.list.front(); t; t = t->next()) {
+        if (2 * toks.size() >= a.size() || t->str() != a[2 * toks.size()])
+            return {"rej", "token " + std::to_string(toks.size()) + " is " + t->str()};
+        toks.push_back(t);
+    }
+    if (2 * toks.size() != a.size())
+        return {"rej", "count " + std::to_string(toks.size())};
+    for (std::size_t i = 0; i < toks.size(); i++) {
+        const std::string& l = a[2 * i + 1];
+        if (l == "-" || l.empty())
+            continue;
+        const std::size_t j = static_cast<std::size_t>(vhToLL(l));
+        if (j >= toks.size())
+            return {"rej", "link out of range"};
+        toks[i]->link(toks[j]);
+    }
+    try {
+        tokenizer.validate();
+    } catch (const InternalError& e) {
+        for (std::size_t i = 0; i < toks.size(); i++)
+            if (toks[i] == e.token)
+                return {"E", std::to_string(i), e.id};
+        return {"E", "?", e.id};
+    }
+    return {"ok"};
 }
 
 // in: lang ("c"|"cpp") then token strings: the whole front end (simplifyTokens1) on the same text
